@@ -535,6 +535,7 @@ type FuncSpec struct {
 	NoPanic  bool
 	NoOverflow bool
 	AbstractMod bool // remainders with a symbolic divisor are uninterpreted (with range facts)
+	Stable      []string // struct fields (pkg.Type.field) assumed not to be written by any callee of this function
 	OnErrorUnchanged []Expr
 	Carries  []*CarrySpec
 	FieldCover []*FieldCoverSpec
@@ -940,6 +941,11 @@ func parseContractFile(path, pkgPath string) (*SpecFile, error) {
 			if cur != nil {
 				cur.NoPanic = true
 			}
+		case "stable":
+			if cur == nil {
+				return nil, fail(fmt.Errorf("stable outside func"))
+			}
+			cur.Stable = append(cur.Stable, strings.Fields(strings.ReplaceAll(rest, ",", " "))...)
 		case "abstract_mod":
 			if cur != nil {
 				cur.AbstractMod = true
